@@ -112,6 +112,7 @@ type Interp struct {
 	filterMemo  map[string]Value
 	filterNode  map[int]*Value
 	filterSeq   int
+	peekSeq     int
 	decSeq      int
 	decoded     []decodedRec
 	env         *Obj
@@ -154,6 +155,7 @@ type PathState struct {
 	events    []Event
 	oblig     []Obligation
 	reached   []string
+	choices   map[string][2]int // vLen name -> {value, max}
 	outcome   string
 	detail    string
 	violations []Violation
@@ -738,6 +740,12 @@ func (in *Interp) call(caller *frame, fn Value, args []Value, site ssa.Instructi
 				in.usedStubs["opaque:"+f.String()]++
 				return in.opaqueResult(f.Signature.Results())
 			}
+			if !in.initDone {
+				// a package-level initialiser calling into an unmodelled library: the
+				// variable gets an opaque value; using it later is reported where it happens
+				in.usedStubs["init-opaque:"+f.String()]++
+				return in.opaqueResult(f.Signature.Results())
+			}
 			in.unsupported("call to external %s", f.String())
 		}
 		return in.callFunctionD(caller, f, args, nil, isDefer)
@@ -955,7 +963,13 @@ func (fr *frame) visit(instr ssa.Instruction) bool {
 			fr.tpanic("nil-map", in.runtimeError("assignment to entry in nil map"))
 		}
 		if !m.Set(fr.get(x.Key), copyVal(fr.get(x.Value))) {
-			in.unsupported("map update with symbolic key at %s", fr.where())
+			keyT := x.Map.Type().Underlying().(*types.Map).Key()
+			if !in.mapSetSym(m, fr.get(x.Key), copyVal(fr.get(x.Value)), keyT) {
+				in.unsupported("map update with symbolic key at %s", fr.where())
+			}
+			break
+		}
+		if false {
 		}
 	case *ssa.TypeAssert:
 		fr.env[x] = in.typeAssert(fr, x)
